@@ -33,6 +33,14 @@ class SchedErr(Exception):
     pass
 
 
+class Runaway(BaseException):
+    """the real run does not terminate where the case guarantees termination (only under a broken tree)"""
+
+
+MAX_EVENTS = 6000
+MAX_CYCLES = FUEL
+
+
 # --------------------------------------------------------------------------- spec helpers
 
 def sid_of(s):
@@ -129,8 +137,14 @@ class Rec:
         self.obj = {}       # id -> python doer object
         self.pools = {}     # scheduler id -> [objects]
         self.sched = {}     # scheduler id -> scheduler object
+        self.dead = False   # set once a Runaway has been reported: later events (GC closes) are dropped
+        self.cycles = 0
 
     def ev(self, i, kind, tyme, *extra):
+        if self.dead:
+            return
+        if len(self.log) >= MAX_EVENTS:
+            raise Runaway("too many events")
         self.log.append((i, kind, tyme) + extra)
 
 
@@ -319,6 +333,12 @@ def make_doist(rec, tock, start, limit):
     from hio.base import doing
 
     class TDoist(doing.Doist):
+        def recur(self, deeds=None):
+            rec.cycles += 1
+            if rec.cycles > MAX_CYCLES and not rec.dead:
+                raise Runaway("too many cycles")
+            return super().recur(deeds=deeds)
+
         def exit(self, deeds=None):
             if deeds is None:
                 rec.ev(0, "stopBeg", self.tyme)
@@ -371,6 +391,10 @@ def run_program(case, mode="do"):
         except Exception as ex:
             n = len(rec.log)
             raised = "other:" + type(ex).__name__
+        except Runaway:
+            rec.dead = True
+            n = len(rec.log)
+            raised = "other:Runaway"
         gc.collect()
     finally:
         if gc_was:
